@@ -110,7 +110,7 @@ def callee_full(t, resolved=True):
 
 # crate-internal functions that rules and spec tables refer to by name: never treated as anonymous helpers
 KNOWN_INTERNAL = {
-    "common::read_to_value", "util::cbor_type_error",
+    "common::read_to_value", "util::cbor_type_error", "util::to_cbor_array",
     "<ciborium::value::Value as util::ValueTryAs>::try_as_integer", "<ciborium::value::Value as util::ValueTryAs>::try_as_bytes",
     "<ciborium::value::Value as util::ValueTryAs>::try_as_nonempty_bytes", "<ciborium::value::Value as util::ValueTryAs>::try_as_array",
     "<ciborium::value::Value as util::ValueTryAs>::try_as_array_then_convert", "<ciborium::value::Value as util::ValueTryAs>::try_as_map",
